@@ -6,7 +6,7 @@ ENV = "env -u GOWORK GOFLAGS=-mod=mod GOPROXY=off GOSUMDB=off GOTOOLCHAIN=local"
 CLAIMED = {
  "C03": dict(
    technique="static analysis: operator->kernel table evaluation (SSA terms), exhaustive truth-table evaluation of the boolean element closures, provenance of the driver's operands, guarded-Repeat / full-traversal / Shape.Eq rules on the broadcast helpers",
-   text="Decides the wiring, not the arithmetic: each of the 12 operators calls the shared driver with (inputs[0], inputs[1]) in order, its ONNX kernel (tensor.Add/Sub/Mul/Div/ElEq/Gt/Gte/Lt/Lte, or a boolean closure whose truth table is evaluated exhaustively) and the multidirectional mode; the driver broadcasts (A,B) in order and applies op(A',B') in order; the boolean loop reads A, B and writes the output at one iterator coordinate; required dtypes are admitted; the broadcast helpers stretch only extent-1 axes, visit every axis, and never decide shape equality with gorgonia's lax Shape.Eq.",
+   text="Decides the wiring, not the arithmetic: each of the 12 operators calls the shared driver - on every path, and returns nothing else - with (inputs[0], inputs[1]) in order, its ONNX kernel (tensor.Add/Sub/Mul/Div/ElEq/Gt/Gte/Lt/Lte, or a boolean closure whose truth table is evaluated exhaustively) and the multidirectional mode; the driver broadcasts (A,B) in order and applies op(A',B') in order; the boolean loop reads A, B and writes the output at one iterator coordinate; required dtypes are admitted; the broadcast helpers stretch only extent-1 axes, visit every axis, and never decide shape equality with gorgonia's lax Shape.Eq.",
    note="Level 'other', narrow. Not decided: IEEE-754 / wrap-around values and element placement (gorgonia kernels and Repeat).",
    ref="DESIGN.md §4 R7 R6 R10 R22 R23; §5 C03"),
  "C04": dict(
@@ -26,32 +26,32 @@ CLAIMED = {
    ref="DESIGN.md §4 R12 R8 R9 R24; §5 C06"),
  "C10": dict(
    technique="static analysis: operator->function table over SSA terms, dtype-case/generic-instantiation pairing, truth-table evaluation (Not), control-dependence rule for PRelu's kernel, mask-multiplication rule",
-   text="Each of the 17 operators is tied to its function: 11 generic closures must be T(math.F(float64(x))) with the [float32] instance under case Float32 and [float64] under Float64; Abs/Tanh delegate to gorgonia; Sigmoid has the dependency shape 1/(1+exp(-x)); Relu is max(x,0) - never x*(x>0), which is NaN at -Inf (R18); Not's closure has truth table 10; PRelu broadcasts the slope unidirectionally and its kernel applies the slope only on the x<0 branch; Data() of possibly rank-0 operands passes the scalar wrapper.",
+   text="Each of the 17 operators is tied to its function: 11 generic closures must be T(math.F(float64(x))) with the [float32] instance under case Float32 and [float64] under Float64; Abs/Tanh delegate to gorgonia; Sigmoid has the dependency shape 1/(1+exp(-x)); Relu is max(x,0) - never x*(x>0), which is NaN at -Inf (R18); Not's closure has truth table 10; PRelu broadcasts the slope unidirectionally on every path, feeds the kernel both broadcast results, and the kernel applies the slope only on the x<0 branch, reading both factors at the element's own index; Data() of possibly rank-0 operands passes the scalar wrapper.",
    note="Level 'other', narrow. Not decided: rounding error bounds, gorgonia's Tanh/Exp/Abs.",
    ref="DESIGN.md §4 R7 R18 R20; §5 C10"),
  "C11": dict(
    technique="static analysis: exhaustive enum<->Go-type table evaluation (AST + go/types) for Cast's 10 targets x 10 sources, alias-flow rule for direct conversion, Constant attribute table, ConstantOfShape gates",
-   text="The 10x10 Cast pairs are a finite table read off the code: each numeric target code instantiates the element converter with its Go type, non-numeric and unknown targets return an error; each source dtype asserts its own []T; the converter is fed the input's own backing (not a widened copy, which loses 64-bit integers); out[i] = R(in[i]); the scalar wrapper covers every source type Cast admits. Constant: attribute name -> getter -> ONNX element type, refusals, exactly one attribute. ConstantOfShape: float32(0) default, one-element value, positive extents, result type from the value; Apply keeps no state in the operator (R21: no memoised result) and does not compare shapes with gorgonia's lax Shape.Eq (R22).",
+   text="The 10x10 Cast pairs are a finite table read off the code: each numeric target code instantiates the element converter with its Go type, non-numeric and unknown targets return an error; each source dtype asserts its own []T; the converter is fed the input's own backing (not a widened copy, which loses 64-bit integers); out[i] = R(in[i]); the scalar wrapper covers every source type Cast admits. Constant: attribute name -> getter -> ONNX element type, refusals, exactly one attribute, list attributes given the explicit 1-D shape. ConstantOfShape: float32(0) default, one-element value, positive extents, result type from the value; Apply keeps no state in the operator (R21: no memoised result) and does not compare shapes with gorgonia's lax Shape.Eq (R22).",
    note="Level 'other', exhaustive over the tables. Value conversion semantics are Go's conversion (= C conversion) by the language spec. Not decided: out-of-range float->int conversions (implementation-defined in Go).",
    ref="DESIGN.md §4 R14; §5 C11"),
  "C16": dict(
    technique="static analysis: structural necessary conditions only (Conv batch-index pairing, recurrent time-slice on axis 0, output reshape provenance, guarded Repeat in per-sample operators, attribute state)",
-   text="The statement is a numeric equivalence between batched and single evaluation, which this family cannot decide. Claimed are six structural conditions whose violation provably breaks per-sample independence: the Conv window's sample index is the output's sample index; the recurrent per-step slice cuts axis 0 only; recurrent outputs are reshaped with batch = X.Shape()[1]; every Repeat in Conv/Gemm/MatMul/recurrent code stretches only extent-1 axes (a tiled peephole vector makes weights depend on batch position); Apply does not carry input-derived state between calls; Transpose.Apply is the single gorgonia Transpose on the requested permutation on every success path (no shape-dependent shortcut).",
+   text="The statement is a numeric equivalence between batched and single evaluation, which this family cannot decide. Claimed are seven structural conditions whose violation provably breaks per-sample independence: the Conv window's sample index is the output's sample index; the recurrent per-step slice cuts axis 0 only; recurrent outputs are reshaped with batch = X.Shape()[1]; every Repeat in Conv/Gemm/MatMul/recurrent code stretches only extent-1 axes (a tiled peephole vector makes weights depend on batch position); Apply does not carry input-derived state between calls; Transpose.Apply is the single gorgonia Transpose on the requested permutation on every success path (no shape-dependent shortcut); the broadcast step of elementwise operators is not decided by gorgonia's lax Shape.Eq and visits every axis.",
    note="Level 'other', very narrow: NOT decided - the property itself (numeric equality of batched and single evaluation).",
    ref="DESIGN.md §5 C16"),
  "C07": dict(
    technique="static analysis: forward taint of user-supplied axes with dominance checks for two-sided range validation, negative normalisation and duplicate rejection; ownership analysis for clone-before-Reshape; scalar-unwrapping rule on Data() assertions",
-   text="The refusal clauses of the property ('out-of-range / duplicate axes ... yield an error, never a tensor') are decided on the code shape: every use of a user-supplied axis (attribute or axes tensor) as Go index, slice bound or selection must be dominated - locally, at every call site, or on the err==nil edge of a validating callee - by a rejecting two-sided range check on that same value (not on some other value, which is how the Squeeze defect hid), must have passed the `x + rank` normalisation, and axis sets must be sorted and checked for duplicates. The 'same elements in the same order' clause is reduced to clone-before-Reshape (E2: no Reshape on borrowed storage) plus gorgonia's Reshape contract. Data() of a possibly rank-0 tensor must pass the scalar wrapper before a slice assertion.",
+   text="The refusal clauses of the property ('out-of-range / duplicate axes ... yield an error, never a tensor') are decided on the code shape: every use of a user-supplied axis (attribute or axes tensor) as Go index, slice bound or selection must be dominated - locally, at every call site, or on the err==nil edge of a validating callee - by a rejecting two-sided range check on that same value (not on some other value, which is how the Squeeze defect hid), must have passed the `x + rank` normalisation, and axis sets must be sorted and checked for duplicates. The 'same elements in the same order' clause is reduced to clone-before-Reshape (E2: no Reshape on borrowed storage) plus gorgonia's Reshape contract. Data() of a possibly rank-0 tensor must pass the scalar wrapper before a slice assertion; no shape decision in the five operators goes through gorgonia's lax Shape.Eq.",
    note="Level 'other': necessary conditions. Not decided: that gorgonia's Reshape keeps row-major order and rejects count mismatches (contract); processShape's -1 inference arithmetic. Shape of a rank-0 tensor yields a zero-size tensor that gorgonia builds but cannot read (behavioural, noted in DESIGN).",
    ref="DESIGN.md §4 R9 R3 R20; §5 C07"),
  "C08": dict(
    technique="static analysis: axes/index taint with validation+normalisation dominance (R9), guarded-Repeat rule (R10), rank-restoration rule for Slice (R19), ownership analysis (R3)",
-   text="Decides the refusal and axis-plumbing clauses: user axes of Slice/Gather/Concat/Transpose and Gather's index data reach Go indexing only under a rejecting two-sided range check (or a validating gorgonia callee whose error is handled) and after negative normalisation `x + r` under x<0 where r is provably the rank/extent of a tensor (derived through parameters, closures and variable cells); Transpose.Apply is the single gorgonia Transpose on the requested permutation; Expand stretches only through Repeat calls dominated by extent==1 (today via the multidirectional broadcast helper); Slice must restore the axes gorgonia's Slice drops (known finding); operands are never modified.",
+   text="Decides the refusal and axis-plumbing clauses: user axes of Slice/Gather/Concat/Transpose and Gather's index data reach Go indexing only under a rejecting two-sided range check (or a validating gorgonia callee whose error is handled) and after negative normalisation `x + r` under x<0 where r is provably the rank/extent of a tensor (derived through parameters, closures and variable cells); Transpose.Apply is the single gorgonia Transpose on the requested permutation and Expand.Apply the shared multidirectional broadcast of (input, fresh tensor of the requested shape); Expand stretches only through Repeat calls dominated by extent==1 (today via the multidirectional broadcast helper); Slice must restore the axes gorgonia's Slice drops (known finding); operands are never modified.",
    note="Level 'other'. Not decided: the ONNX index formulas themselves (Gather's paired slices, clamping, negative steps), Transpose/Concat data movement (gorgonia). One known finding: Slice drops extent-1 axes.",
    ref="DESIGN.md §4 R9 R10 R19 R3; §5 C08"),
  "C09": dict(
    technique="static analysis: axis taint with per-callee axis contracts (which gorgonia reductions resolve negative axes, which validate which side), control-dependence rule for keepdims, result-type rule",
-   text="Only the axis plumbing is decided (the softmax numerics are out of reach of this family): every requested axis reaches gorgonia or a Go index only after `+ rank` normalisation unless the callee resolves negatives itself (SoftMax/LogSoftMax do, Argmax/Max/Min treat -1 as 'all axes'); the reshape that re-inserts reduced axes is control-dependent on the keepdims attribute field; ArgMax's result is backed by []int64; a reduced rank-0 result passes the scalar wrapper; Softmax/LogSoftmax.Apply return the single gorgonia call on (input, normalised axis) on every success path.",
+   text="Only the axis plumbing is decided (the softmax numerics are out of reach of this family): every requested axis reaches gorgonia or a Go index only after `+ rank` normalisation unless the callee resolves negatives itself (SoftMax/LogSoftMax do, Argmax/Max/Min treat -1 as 'all axes'); the reshape that re-inserts reduced axes is control-dependent on the keepdims attribute field; ArgMax's result is backed by []int64; a reduced rank-0 result passes the scalar wrapper; Softmax/LogSoftmax.Apply return the single gorgonia call on (input, normalised axis) on every success path; ReduceMax/ReduceMin pass one entry per requested axis to the reduction (R9d).",
    note="Level 'other', narrow. Not decided: softmax normalisation/finiteness, first-occurrence ties, NaN handling, 'all axes when none given' (ReduceMax/Min without axes is refused today - behavioural). Out-of-range axes are recorded as notes (the statement is silent on them).",
    ref="DESIGN.md §4 R9 R20; §5 C09"),
  "C14": dict(
@@ -91,7 +91,7 @@ CLAIMED = {
    ref="DESIGN.md §4 R1 R3, §5 C17"),
  "C15": dict(
    technique="static analysis: exhaustive table evaluation over the operator registry (go/types AST evaluation + go/ssa dominance checks)",
-   text="Every registered operator (55) is enumerated from the type-checked program; its arity getters and dtype-constraint table are evaluated statically and checked for the relations the generic gate relies on (0<=min<=max, len(constraints)>=max, delegation, constant input indices < max, nil-guards on optional inputs), the generic gate's own stage order and counter semantics are checked on its SSA form, and the registry/constructor/getter are checked for completeness, freshness and the unsupported-operator miss path. The instance space is finite and walked completely, which is why a table rule is the right level: the property quantifies over 55 x arity x dtype combinations that tests only sample.",
+   text="Every registered operator (55) is enumerated from the type-checked program; its arity getters and dtype-constraint table are evaluated statically and checked for the relations the generic gate relies on (0<=min<=max, len(constraints)>=max, delegation, constant input indices < max, nil-guards on optional inputs), the generic gate's own stage order, counter semantics and full traversal of the dtype loop are checked on its SSA form, and the registry/constructor/getter are checked for completeness, freshness and the unsupported-operator miss path. The instance space is finite and walked completely, which is why a table rule is the right level: the property quantifies over 55 x arity x dtype combinations that tests only sample.",
    note="Necessary structural conditions, level 'other'. Trusted: go/types + go/ssa; gorgonia's Dtype(); R1 (no reassignment of package-level arity variables) is checked under C01/C02/C17. Not decided: nil at a required position.",
    ref="DESIGN.md §4 R6, R2; §5 C15"),
 }
